@@ -37,10 +37,10 @@ CHECKS = {
         "technique": "contract harnesses on macro expansions: Kani full-domain equivalence of the generated closure with a Rust match, per catalogue instance",
     },
     "C19": {
-        "level_text": "Proof per catalogue instance over its whole argument domain of the mismatch POSITIONS and kinds only. Partial by design: message text is not covered.",
+        "level_text": "Proof per catalogue instance over its whole argument domain of the mismatch POSITIONS and kinds (generated diagnostics arm), plus Verus proofs for all inputs that the runtime collection functions record and collect every report with its position and kind. Partial by design: message text is not covered.",
         "design_ref": "DESIGN.md §4 C19",
         "level_note": "Trusted: as C06. Everything textual in the property (call rendering, pattern source text, file:line) is not applicable to this technique.",
-        "technique": "contract harnesses on macro expansions: Kani full-domain check of recorded mismatch positions per catalogue instance",
+        "technique": "contract harnesses on macro expansions (Kani, per catalogue instance) + Verus requires/ensures on the extracted mismatch-collection functions",
     },
     "C17": {
         "level_text": "Proof per instantiation over all leaf values and variants (Option, Result, Poll, tuples of arity 2 and 4, nesting depth 2; Owning/Lending/StaticRef leaves); Vec containers bounded in the element count (reported as bounded). Partial: the macro's choice of output kind is not covered.",
